@@ -367,3 +367,57 @@ def check_ascii_writer(ctx, F, rule="E-DDDMP.ascii"):
     ctx.ob(rule, rule, not fails, "ASCII part of export_common (%s): %s" % (F.where(EXP), " || ".join(fails) if fails else
            "variable loops from 0, terminal lines ` 0 0`, counter from 0, complemented edges negated"))
     return n
+
+
+def check_reader_structure(ctx, F, rule="E-DDDMP.reader"):
+    """Reader-side counterparts that keep *valid* files accepted and read correctly:
+      lengths   every comparison of a header list's length with a header count (`DumpHeader::load`) is `!=` / `>` and
+                leads to the error on its `true` edge -- equal lengths pass (an `==` rejects every well-formed file);
+      roots     a root id r is the node r.unsigned_abs() - 1, complemented exactly for r < 0 (`if root > 0 { e } else {
+                complement(e) }`, the writer negates complemented roots);
+      end       the error for a missing `.end` is raised on the `!reads_expected(..)` edge."""
+    n = 0
+    fails = []
+    load = [f for f in F.hir if f.startswith("oxidd_dump::dddmp::import::") and f.endswith("::load")]
+    if not ctx.anchor(rule, "DumpHeader::load", len(load) >= 1):
+        return 0
+    lens = 0
+    for fid in load:
+        for x in H.walk(F.hir[fid]["body"]):
+            if x.get("k") == "bin" and x.get("o") in ("==", "!=", "<", "<=", ">", ">="):
+                def is_len(y):
+                    while isinstance(y, dict) and y.get("k") in ("cast", "use", "ref"):
+                        y = y["e"]
+                    return isinstance(y, dict) and y.get("k") == "mcall" and y.get("name") == "len"
+                if is_len(x["l"]) or is_len(x["r"]):
+                    lens += 1
+                    if x["o"] not in ("!=", ">", "<"):
+                        fails.append("line %s: a header list length is compared with `%s` (expected `!=`): lists of the right length "
+                                     "are rejected" % (x.get("ln"), x["o"]))
+    n += 1
+    if lens < 6:
+        fails.append("only %d length validations found in DumpHeader::load (expected >= 6)" % lens)
+    # roots
+    imp = "oxidd_dump::dddmp::import::import"
+    ok_root = ok_end = False
+    if imp in F.hir:
+        for x in H.walk(F.hir[imp]["body"]):
+            if x.get("k") == "if" and "e" in x and x["c"].get("k") == "bin" and H.root_local(x["c"]["l"]) == "root":
+                c = x["c"]
+                pos_plain = c["o"] == ">" and c["r"].get("k") == "lit" and str(c["r"].get("v")) == "0"
+                then_plain = not any((y.get("f") or {}).get("n") == "complement" or (y.get("k") == "call" and y["f"].get("res") == "local" and y["f"].get("n") == "complement")
+                                     for y in H.walk(x["t"]))
+                else_compl = any(y.get("k") == "call" and y["f"].get("res") == "local" and y["f"].get("n") == "complement" for y in H.walk(x["e"]))
+                ok_root = pos_plain and then_plain and else_compl
+            if x.get("k") == "if" and "e" not in x and x["c"].get("k") == "un" and x["c"].get("o") == "!":
+                inner = x["c"]["e"]
+                if any((y.get("f") or {}).get("n", "").endswith("reads_expected") for y in H.walk(inner) if y.get("k") == "call"):
+                    ok_end = any(y.get("k") == "ret" for y in H.walk(x["t"]))
+    n += 2
+    if not ok_root:
+        fails.append("a root is not read as `if root > 0 { node } else { complement(node) }`")
+    if not ok_end:
+        fails.append("the `.end` check is not `if !reads_expected(..) { return err(..) }`")
+    ctx.ob(rule, rule, not fails, "DDDMP reader structure: %s" % (" || ".join(fails[:3]) if fails else
+           "%d length validations use `!=`, roots complemented for negative ids, `.end` required" % lens))
+    return n
